@@ -41,4 +41,22 @@ func OnChangeMap.executeItemCallback
   ensures nchg == old(nchg) + ((r.callbacksEnabled && r.changedCallback != nil) ? 1 : 0)
   ensures nitm == old(nitm) + ((r.callbacksEnabled && callback != nil && !chgfail) ? 1 : 0)
   ensures !r.callbacksEnabled ==> r0 == nil
+-- All hands out COPIES: it walks the stored items and clones each one (a caller that changes or keeps what it got does not
+-- reach into the store, and no change happens behind the callbacks' back)
+-- (checked for these statements only - opt only-ghost-asserts)
+func OnChangeMap.All
+  opt only-ghost-asserts
+  requires r != nil
+  modifies everything
+  ghost local walked Bool
+  ghost at entry: walked = false
+  ghost after call ShrinkingMap.ForEach: walked = true
+  ghost at return: assert walked
+func OnChangeMap.All$1
+  opt only-ghost-asserts
+  modifies everything
+  ghost local cloned Bool
+  ghost at entry: cloned = false
+  ghost after call Item.Clone: cloned = true
+  ghost at return: assert cloned
 @*/
